@@ -35,10 +35,14 @@ def corrupt(case, rnd):
 
 
 def corrupt_event(ev, rnd):
+    """Corrupt the recorded observation of one event (the real tree / the real value)."""
     e = copy.deepcopy(ev)
     if e.get('ev') != 'step':
         return None
-    e['sx'] = e['sx'] + 'q'
+    if e.get('kind') == 'expr':
+        e['sx'] = e['sx'] + 'q'
+    else:
+        e['val'] = e['val'] + [122]
     return e
 
 
@@ -46,7 +50,7 @@ def run(ctx):
     q = ctx.quick
     ctx.rule = ('a case is one expression tree (derivation over the operators = += ?: || && in ~ !~ < <= != == > >= '
                 'concatenation + - * / % unary + - ! ^ pre/post ++ -- $ grouping, array index, builtin call, and the getline '
-                'forms) in one of the contexts statement / print argument / print argument followed by > dest / pattern / '
+                'forms) in one of the contexts statement / print argument / print argument followed by > dest or by | cmd / pattern / '
                 'if-condition, exported by TLC from Gen_Grammar with the minimally and the fully parenthesised text; '
                 'distinct by content; non-trivial when the tree has at least two operators')
     ctx.assumptions += [
@@ -85,17 +89,34 @@ def run(ctx):
     trace_direction(ctx, 'C04')
 
 
-def trace_direction(ctx, pid):
-    """Shared by C04 and C20: record (tokens of the text the real printer emits, real tree) for the statement-level
-    expressions of the corpus and let the specification's parser read them (Trace_Grammar)."""
-    import glob
+def trace_direction(ctx, pid, literals=False):
+    """Shared by C04 and C20 (code -> spec).  Records (tokens of the text the real printer emits, real tree) for the
+    statement-level expressions of the corpus and, for C20, (printed literal, value) pairs; Trace_Grammar reads them
+    with the specification's parser / lexical rules.  The binding self-test is planted in the same log: corrupted
+    copies of recorded events, each a trace of its own, must be rejected."""
+    import glob, random
     from vlib import MachineryError
     n = 1500 if ctx.quick else 100000
-    ctx.harness(['C04', 'record', '-seed', str(ctx.seed), '-n', str(n), '-out', ctx.path('trace.ndjson')],
-                env={'VERIF_REPO_DIR': os.environ.get('VERIF_REPO', '/repo')})
+    env = {'VERIF_REPO_DIR': os.environ.get('VERIF_REPO', '/repo')}
+    ctx.harness(['C04', 'record', '-seed', str(ctx.seed), '-n', str(n), '-out', ctx.path('trace_expr.ndjson')], env=env)
+    events = [json.loads(x) for x in open(ctx.path('trace_expr.ndjson')) if x.strip()]
+    if literals:
+        ctx.harness(['C20', 'record', '-seed', str(ctx.seed), '-n', str(600 if ctx.quick else 6000), '-out',
+                     ctx.path('trace_lit.ndjson')], env=env)
+        events += [json.loads(x) for x in open(ctx.path('trace_lit.ndjson')) if x.strip()]
+    nreal = len(events)
+    rnd = random.Random(ctx.seed)
+    steps = [e for e in events if e.get('ev') == 'step']
+    planted = {}
+    for e in rnd.sample(steps, min(16, len(steps))):
+        events.append({'ev': 'reset'})
+        events.append(corrupt_event(e, rnd))
+        planted[len(events)] = e          # 1-based line of the planted event
+    with open(ctx.path('trace.ndjson'), 'w') as f:
+        for e in events:
+            f.write(json.dumps(e, separators=(',', ':')) + '\n')
     rejects = ctx.validate_traces('Trace_Grammar', 'Trace_Grammar', 'trace.ndjson', label='trace-grammar',
                                   selftest=False, timeout=1200)
-    events = [json.loads(x) for x in open(ctx.path('trace.ndjson')) if x.strip()]
     unjudged, judged = set(), 0
     for cap in glob.glob(ctx.path('rejects_trace-grammar_*.ndjson')):
         for line in open(cap):
@@ -104,52 +125,38 @@ def trace_direction(ctx, pid):
                 unjudged.add(o['unjudged'])
             if 'judged' in o:
                 judged = o['judged']
-    ctx.cov['trace_expressions_judged'] = judged
-    ctx.cov['trace_expressions_outside_strict_language'] = len(unjudged)
-    ctx.log(f'trace-grammar: {judged} recorded expressions inside the strict language judged, {len(unjudged)} outside it')
+    planted_judged = [k for k in planted if k not in unjudged]
+    planted_rejected = [r for r in rejects if r['line'] in planted]
+    real_rejects = [r for r in rejects if r['line'] <= nreal]
+    judged -= len(planted_judged)
+    ctx.cov['traces_validated_against_impl'] -= len(planted) - len(planted_rejected)
+    ctx.cov['evaluations'] -= len(planted)
+    ctx.cov['trace_events_judged'] = judged
+    ctx.cov['trace_events_outside_judged_language'] = len([k for k in unjudged if k <= nreal])
+    ctx.log(f'trace-grammar: {judged} recorded events judged by the specification, '
+            f'{ctx.cov["trace_events_outside_judged_language"]} outside the judged language, {len(real_rejects)} rejected')
     if judged < 100:
-        raise MachineryError(f'trace-grammar: only {judged} recorded expressions were judged')
-    # binding self-test: corrupt the recorded tree of one judged expression; TLC must reject exactly there
-    rejected_lines = {r['line'] for r in rejects}
-    rnd = __import__('random').Random(ctx.seed)
-    cand = [i for i, e in enumerate(events) if e.get('ev') == 'step' and (i + 1) not in unjudged and (i + 1) not in rejected_lines]
-    # events after a rejected one in the same trace were skipped by TLC: keep to traces without rejects
-    bad_traces = set()
-    for r in rejects:
-        bad_traces.add(id(r['trace']))
-    rnd.shuffle(cand)
-    done = False
-    for i in cand[:20]:
-        lo = i
-        while lo > 0 and events[lo].get('ev') != 'reset':
-            lo -= 1
-        hi = i
-        while hi < len(events) and events[hi].get('ev') != 'reset':
-            hi += 1
-        if any((j + 1) in rejected_lines for j in range(lo, hi)):
-            continue
-        ev2 = corrupt_event(events[i], rnd)
-        bad = ctx.path('bad_trace-grammar.ndjson')
-        with open(bad, 'w') as f:
-            for j, e in enumerate(events):
-                f.write(json.dumps(ev2 if j == i else e, separators=(',', ':')) + '\n')
-        rej = ctx._run_trace('Trace_Grammar', 'Trace_Grammar', bad, 'trace-grammar-selftest', 1200, False)
-        if not any(r['reject'] == i + 1 for r in rej):
-            raise MachineryError(f'trace-grammar: binding self-test failed: corrupted event {i + 1} was accepted')
-        ctx.cov.setdefault('selftest', []).append({'label': 'trace-grammar', 'corrupted_event': i + 1, 'rejected': True})
-        ctx.log(f'trace-grammar: binding self-test ok (corrupted event {i + 1} rejected)')
-        done = True
-        break
-    if not done:
-        raise MachineryError('trace-grammar: self-test could not corrupt any event')
+        raise MachineryError(f'trace-grammar: only {judged} recorded events were judged')
+    if not planted_judged:
+        raise MachineryError('trace-grammar: self-test could not corrupt any judged event')
+    if len(planted_rejected) != len(planted_judged):
+        raise MachineryError(f'trace-grammar: binding self-test failed: {len(planted_judged)} corrupted observations, '
+                             f'only {len(planted_rejected)} rejected')
+    ctx.cov.setdefault('selftest', []).append({'label': 'trace-grammar', 'corrupted': len(planted_judged),
+                                               'rejected': len(planted_rejected)})
+    ctx.log(f'trace-grammar: binding self-test ok ({len(planted_rejected)}/{len(planted_judged)} corrupted observations rejected)')
     # a reject is only a candidate: the replayer must reproduce the disagreement on the real code
-    if rejects:
+    if real_rejects:
         cf = ctx.path('tracecheck.ndjson')
         with open(cf, 'w') as f:
-            for r in rejects:
+            for r in real_rejects:
                 ev = r['trace'][r['pos']]
-                case = dict(fam='tracecheck', ctx=ev['ctx'], toks=ev['toks'], sx=ev['sx'], spec=r['info'].get('sx'),
-                            src=ev.get('src'), printed=ev.get('printed'), rsx=ev.get('rsx'))
+                if ev.get('kind') == 'expr':
+                    case = dict(fam='tracecheck', ctx=ev['ctx'], toks=ev['toks'], sx=ev['sx'], spec=r['info'].get('sx'),
+                                src=ev.get('src'), printed=ev.get('printed'), rsx=ev.get('rsx'))
+                else:
+                    case = dict(fam='littrace', kind=ev['kind'], lit=ev['lit'], val=ev['val'], spec=r['info'].get('val'),
+                                src=ev.get('src'))
                 f.write(json.dumps(case, separators=(',', ':')) + '\n')
         out = ctx.path('tracecheck.json')
         ctx.harness([pid, 'replay', '-in', cf, '-out', out, '-maxfail', '5'])
@@ -158,6 +165,6 @@ def trace_direction(ctx, pid):
             ctx.failures.append(f)
         for k, v in s['sig_counts'].items():
             ctx.sig_counts[k] = ctx.sig_counts.get(k, 0) + v
-        ctx.notes.append(f'{len(rejects)} recorded expressions rejected by Trace_Grammar; '
+        ctx.notes.append(f'{len(real_rejects)} recorded events rejected by Trace_Grammar; '
                          f'{sum(s["sig_counts"].values())} of them reproduced on the real code as {pid} failures '
-                         f'(the others concern the sibling property)')
+                         f'(the others concern the sibling property or the lexer)')
